@@ -79,21 +79,39 @@ def first_ferrous_frame(stderr):
     return (msg + "@" + frame.replace("ferrous::", "")).replace(" ", "_")[:160] or "no-panic-message"
 
 
+class SeedingFailed(Exception):
+    pass
+
+
 class Prober:
-    def __init__(self, binary, res, profile):
+    def __init__(self, binary, res, profile, extra_env=None):
         self.binary = binary
         self.res = res
         self.profile = profile
-        self.srv = server.Server(binary).start()
-        self.c = self.srv.client(timeout=6)
-        seed_all(self.c)
-        self.base = sentinel_dump(self.c)
+        self.srv = server.Server(binary, extra_env=extra_env, start_timeout=60.0).start()
+        self._seed()
+
+    def _seed(self):
+        """Build the sentinel dataset. The seeding traffic is ordinary, valid client input:
+        a server that dies or stops answering on it is a finding, not a harness problem."""
+        try:
+            self.c = self.srv.client(timeout=20)
+            seed_all(self.c)
+            self.base = sentinel_dump(self.c)
+        except (Closed, Timeout, OSError) as e:
+            time.sleep(0.3)
+            err = self.srv.stderr_text()
+            if not self.srv.alive():
+                self.res.violation("crash/seeding/%s" % first_ferrous_frame(err[-6000:]),
+                                   "(%s build) server exited %s while the sentinel dataset was being written (valid pipelined "
+                                   "commands only)\n%s" % (self.profile, self.srv.exit_status(), err[-1800:]))
+            else:
+                self.res.violation("hang/seeding", "(%s build) server stopped answering while the sentinel dataset was being written: %r" % (self.profile, e))
+            raise SeedingFailed()
 
     def restart(self):
         self.srv.restart()
-        self.c = self.srv.client(timeout=6)
-        seed_all(self.c)
-        self.base = sentinel_dump(self.c)
+        self._seed()
 
     def healthy(self, watchdog=20.0):
         """PING on a fresh connection (retried once)."""
@@ -277,10 +295,145 @@ FRAMES = [
 ]
 
 
+def split_delivery(p):
+    """Valid input delivered in two TCP segments with a pause, the cut at every
+    offset (the parser sees every possible incomplete prefix, then the rest)."""
+    res = p.res
+    base = b"".join(resp.encode(a) for a in [[b"SET", b"c:tmp", b"va\rlue"], [b"LPUSH", b"c:tmpl", b"a", b""], [b"PING"]]) + b"PING\r\n"
+    for cut in range(1, len(base)):
+        res.evaluations += 1
+        t = None
+        try:
+            t = p.srv.client(timeout=6)
+            t.send_raw(base[:cut])
+            time.sleep(0.004)
+            t.send_raw(base[cut:])
+            t.drain_raw(0.02)
+        except (OSError, Closed):
+            pass
+        finally:
+            if t is not None:
+                t.close()
+        cls = "split-after-" + {13: "CR", 10: "LF"}.get(base[cut - 1], "other")
+        res.cell("frame", cls)
+        if not p.srv.alive():
+            err = p.srv.stderr_text()
+            res.violation("crash/split/%s/%s" % (cls, first_ferrous_frame(err[-6000:])),
+                          "(%s build) server exited %s after valid commands delivered as %s + pause + %s\n%s" % (
+                              p.profile, p.srv.exit_status(), resp.show(base[:cut], 60), resp.show(base[cut:cut + 20], 30), err[-1500:]),
+                          {"raw": resp.jsonable(base), "cut": cut})
+            p.restart()
+    if not p.healthy():
+        res.violation("hang/split-delivery", "server stopped answering after split deliveries of valid commands")
+        p.srv.kill()
+        p.restart()
+
+
+INTRUDERS = [
+    [b"SET", b"K", b"x"], [b"SETEX", b"K", b"100", b"x"], [b"MSET", b"K", b"x"], [b"APPEND", b"K", b"x"], [b"INCR", b"K"],
+    [b"SETRANGE", b"K", b"3", b"x"], [b"SADD", b"K", b"m"], [b"HSET", b"K", b"f", b"v"], [b"HINCRBY", b"K", b"f", b"1"],
+    [b"ZADD", b"K", b"1", b"m"], [b"ZINCRBY", b"K", b"1", b"m"], [b"XADD", b"K", b"*", b"f", b"v"], [b"RENAME", b"c:str", b"K"],
+    [b"RENAMENX", b"c:str", b"K"], [b"DEL", b"K"], [b"EXPIRE", b"K", b"0"], [b"FLUSHDB"], [b"FLUSHALL"], [b"SELECT", b"3"],
+    [b"EVAL", b"return redis.call('SADD', KEYS[1], 'm')", b"1", b"K"], [b"LPUSH", b"K", b"a", b"b", b"c"], [b"LTRIM", b"K", b"5", b"9"],
+    [b"PEXPIRE", b"K", b"1"], [b"LSET", b"K", b"0", b"x"], [b"SUNIONSTORE", b"K", b"c:set"], [b"PERSIST", b"K"],
+]
+
+
+def blocked_scenarios(p):
+    """Hostile sequences that need a second connection: a client parked in a blocking pop
+    while another client replaces, retypes, deletes, expires or flushes the key it waits on
+    (directly, inside MULTI/EXEC, from a script), or pipelines commands behind its own
+    blocking call, or goes away. Oracle: child alive, PING on a new connection, sentinels."""
+    res = p.res
+    K = b"c:blk"
+    for pop in (b"BLPOP", b"BRPOP"):
+        for keys in ([K], [K, b"c:blk2"], [b"c:blk2", K]):
+            for path in ("direct", "multi"):
+                for intr in INTRUDERS:
+                    res.evaluations += 1
+                    cmd = [K if x == b"K" else x for x in intr]
+                    label = "%s/%s/%s/%s" % (pop.decode(), len(keys), path, intr[0].decode())
+                    w = o = None
+                    try:
+                        o = p.srv.client(timeout=6)
+                        o.cmd("DEL", K, "c:blk2")
+                        o.cmd("SET", "c:str", "s")
+                        w = p.srv.client(timeout=6)
+                        w.send(pop, *keys, "0")
+                        server.wait_loops(o, 2)
+                        if path == "direct":
+                            o.cmd(*cmd)
+                        else:
+                            o.pipeline([[b"MULTI"], cmd, [b"RPUSH", K, b"late"], [b"EXEC"]])
+                        server.wait_loops(o, 3)
+                        o.cmd("SELECT", "0")
+                        o.cmd("DEL", K)
+                        o.cmd("RPUSH", K, "v")        # serve (or not) whoever still waits
+                        server.wait_loops(o, 2)
+                    except (Closed, Timeout, OSError):
+                        pass
+                    finally:
+                        for x in (w, o):
+                            if x is not None:
+                                x.close()
+                    res.cell("blocked", pop.decode(), path, intr[0].decode())
+                    if not p.srv.alive():
+                        err = p.srv.stderr_text()
+                        res.violation("crash/blocked-key/%s/%s" % (intr[0].decode(), first_ferrous_frame(err[-6000:])),
+                                      "(%s build) server exited %s: a client waits in %s %s 0, another client runs %s (%s)\n%s" % (
+                                          p.profile, p.srv.exit_status(), pop.decode(), resp.show(keys), resp.show(cmd, 40), path, err[-1500:]),
+                                      {"scenario": label})
+                        p.restart()
+                    elif intr[0] in (b"FLUSHALL", b"FLUSHDB"):
+                        try:
+                            seed_all(p.c, big=True)
+                            p.base = sentinel_dump(p.c)
+                        except (Closed, Timeout, OSError):
+                            p.restart()
+            if not p.healthy():
+                time.sleep(0.3)
+                err = p.srv.stderr_text()
+                if not p.srv.alive():
+                    res.violation("crash/blocked-key/late/%s" % first_ferrous_frame(err[-6000:]),
+                                  "(%s build) server exited %s after blocked-key scenarios with %s %s\n%s" % (
+                                      p.profile, p.srv.exit_status(), pop.decode(), resp.show(keys), err[-1500:]))
+                else:
+                    res.violation("hang/blocked-key/%s" % pop.decode(), "server stopped answering after blocked-key scenarios with %s %s" % (pop.decode(), resp.show(keys)))
+                p.srv.kill()
+                p.restart()
+    # a blocked client that keeps talking, and blocked clients that vanish
+    for tail in ([[b"PING"]], [[b"BLPOP", K, b"0"]], [[b"MULTI"], [b"EXEC"]], [[b"SUBSCRIBE", b"ch"]], [[b"QUIT"]], [[b"BLPOP", K, b"0"]] * 50):
+        res.evaluations += 1
+        try:
+            o = p.srv.client(timeout=6)
+            o.cmd("DEL", K)
+            w = p.srv.client(timeout=6)
+            w.send_raw(resp.encode([b"BLPOP", K, b"0"]) + b"".join(resp.encode(t) for t in tail))
+            server.wait_loops(o, 3)
+            o.cmd("RPUSH", K, "a", "b", "c")
+            server.wait_loops(o, 3)
+            w.close()
+            o.cmd("RPUSH", K, "d")
+            server.wait_loops(o, 3)
+            o.close()
+        except (Closed, Timeout, OSError):
+            pass
+        res.cell("blocked", "talks-on", tail[0][0].decode())
+        if not p.srv.alive() or not p.healthy():
+            err = p.srv.stderr_text()
+            res.violation("crash/blocked-client-talks/%s/%s" % (tail[0][0].decode(), first_ferrous_frame(err[-6000:])),
+                          "(%s build) server exited or hung: BLPOP followed by %s on the same connection, then pushes and a disconnect\n%s" % (
+                              p.profile, resp.show(tail[:2]), err[-1500:]))
+            p.srv.kill()
+            p.restart()
+    p.check_sentinels("blocked-scenarios")
+
+
 def frame_fuzz(p, rng, n_random):
     res = p.res
     for label, data in FRAMES:
         run_raw(p, data, "frame/" + label, label)
+    split_delivery(p)
     # byte-level mutations of valid pipelines
     base = b"".join(resp.encode(a) for a in [[b"SET", b"c:tmp", b"value"], [b"LPUSH", b"c:tmpl", b"a", b"b"], [b"GET", b"c:tmp"],
                                              [b"ZADD", b"c:tmpz", b"1", b"m"], [b"HSET", b"c:tmph", b"f", b"v"], [b"PING"]])
@@ -378,11 +531,14 @@ def script_exhaustion(binary, res, known):
         srv.cleanup()
 
 
-def worker(shard, binary, nshards, tier, seed, profile):
+def worker(shard, binary, nshards, tier, seed, profile, extra_env=None):
     res = Result()
     rng = util.rng_for(seed, "C06", shard)
     known = util.Known()
-    p = Prober(binary, res, profile)
+    try:
+        p = Prober(binary, res, profile, extra_env)
+    except SeedingFailed:
+        return res
     try:
         cases = boundary_cases()
         rotate = seed % 3
@@ -420,7 +576,15 @@ def worker(shard, binary, nshards, tier, seed, profile):
             p.check_sentinels("frame-fuzz")
         if shard == 2 % nshards:
             script_exhaustion(binary, res, known)
+        if shard == 3 % nshards:
+            blocked_scenarios(p)
+    except SeedingFailed:
+        pass
     finally:
+        if profile == "asan":
+            from .. import sanitize
+            res.count("asan_evaluations", res.evaluations)
+            sanitize.record(res, "C06", p.srv.stderr_text(), "asan")
         p.close()
     return res
 
@@ -434,13 +598,19 @@ def run(tier):
     if tier == "thorough":
         rbin, _ = server.build("release")
         res.merge(util.run_workers(worker, list(range(n)), dict(binary=rbin, nshards=n, tier="quick", seed=seed, profile="release"), nproc=n))
+        # E5(a): the same enumeration against an AddressSanitizer build; a report block in the
+        # child's log is a violation even when the process survives
+        from .. import sanitize
+        abin, aenv, _ = sanitize.build("asan")
+        res.merge(util.run_workers(worker, list(range(n)), dict(binary=abin, nshards=n, tier="quick", seed=seed + 1, profile="asan",
+                                                                extra_env=aenv), nproc=n))
     gaps = catalogue.gaps(server.REPO)
     return util.finish("C06", tier, seed, "exploration", res,
                        "boundary enumeration: every catalogue command (%d names) x every argument position x %d boundary "
                        "values (numeric edges of i64/u64/i32, exponents, nan/inf, padded, hex, non-ASCII digits, 64 KB digits, "
                        "binary) + extra trailing argument + %d directed templates against empty / 1-element / 10^4-element "
-                       "values and through redis.call (quick: a seed-rotated third, thorough: all, also on the release-"
-                       "semantics build); frame fuzz: %d absurd / malformed / flooding byte streams + random byte mutations of "
+                       "values and through redis.call (quick: a seed-rotated third, thorough: all, plus a third each on the release-"
+                       "semantics build and on an AddressSanitizer build); frame fuzz: %d absurd / malformed / flooding byte streams + random byte mutations of "
                        "valid pipelines; script exhaustion; oracle: child alive, PING on a new connection within 20 s "
                        "(retried), sentinel keys of every type unchanged; cell = (command, value class, outcome)" % (
                            len(catalogue.CATALOGUE), len(POOL), 0, len(FRAMES)), t0,
